@@ -52,7 +52,78 @@ def branch_conditions(body, b):
     return out
 
 
-def stage_events(prog, fn, arg_name="model"):
+def stale_snapshots(ctx, prog, fn, sc, arg_name="model", rule="c16.order"):
+    """stages that receive a precomputed set of references (`purge_unused_loads(model, &refs)`): the one thing decided about them is the order.  A set
+    collected from model.X before a stage purged model.X still holds what the removed X elements referred to, so a later stage that keeps what the set names
+    keeps too much (a second purge removes more).  Where each field of the record comes from is read off the collecting function: an insert/extend into
+    `<record>.<field>` inside a loop over `model.<collection>`."""
+    from ..loops import classify_loops
+    body = fn.body
+    order = {b: i for i, b in enumerate(body.rpo())}
+    stages = []
+    for b, t in body.calls():
+        cid = callee_id(t)
+        g = prog.fns.get(cid)
+        if g is None or not g.path.startswith("bemodel::purge::") or (g.raw.get("inputs") or [""])[0] != "&mut types::model::Model":
+            continue
+        gsc = Scope(prog, g)
+        targets, fields = set(), set()
+        for b2, t2 in g.body.calls():
+            for a in t2["args"][:1]:
+                ln_ = leaf_name(strip(gsc.operand(a))) or ""
+                if ln_.startswith(arg_name + ".") and short_callee(callee_name(t2) or "") in ("retain", "retain_mut", "retain_used", "drain", "clear", "truncate", "dedup") or \
+                        (ln_.startswith(arg_name + ".") and (prog.fns.get(callee_id(t2)) is not None and (prog.fns[callee_id(t2)].raw.get("inputs") or [""])[0].startswith("&mut std::vec::Vec"))):
+                    targets.add(ln_[len(arg_name) + 1:].split(".")[0] if not ln_[len(arg_name) + 1:].startswith(("cons.", "schedules.")) else ln_[len(arg_name) + 1:])
+            for a in t2["args"]:
+                for x in walk(strip(gsc.operand(a))):
+                    if x[0] == "proj" and strip(x[1])[0] == "arg" and strip(x[1])[1] == 2 and x[2]:
+                        fields.add(str(x[2][-1]).lstrip(".") if not str(x[2][0]).startswith("*") or len(x[2]) == 1 else str(x[2][1]).lstrip("."))
+        for b2, i2, s2 in g.body.statements():
+            if s2["s"] == "assign":
+                tg = model_field_of_place(s2["p"], g.body)
+                if tg is not None and not isinstance(s2["p"], int):
+                    targets.add(tg)
+        extra = [strip(sc.operand(a)) for a in t["args"][1:]]
+        stages.append((order[b], g, targets, fields, extra, t))
+    stages.sort(key=lambda x: x[0])
+    # the records handed to the stages, and the function that collected each
+    for pos, g, targets, fields, extra, t in stages:
+        for e in extra:
+            base = e
+            while base[0] in ("ref", "un") and len(base) > 1 and isinstance(base[-1], tuple):
+                base = strip(base[-1])
+            if not (base[0] == "call" and base[2] and (leaf_name(strip(base[2][0])) or "").split(".")[0] == arg_name):
+                continue
+            cids = prog.callee_index().get(base[1], ())
+            if len(cids) != 1:
+                continue
+            C = prog.fns[next(iter(cids))]
+            csc = Scope(prog, C)
+            cpos = order.get(base[3], -1) if len(base) > 3 else -1
+            src_of = {}
+            for info in classify_loops(prog, C):
+                src = (info.get("source") or "")
+                if not src.startswith(arg_name + "."):
+                    continue
+                coll = src[len(arg_name) + 1:]
+                for b3 in info["blocks"]:
+                    t3 = C.body.blocks[b3]["term"]
+                    if t3["t"] == "call" and short_callee(callee_name(t3) or "") in ("insert", "extend", "push") and t3["args"]:
+                        r_ = strip(csc.operand(t3["args"][0]))
+                        if r_[0] == "proj" and r_[2]:
+                            src_of.setdefault(str(r_[2][-1]).lstrip("."), set()).add(coll)
+            for f_ in sorted(fields):
+                for coll in sorted(src_of.get(f_, ())):
+                    late = [g2 for (p2, g2, tg2, _, _, _) in stages if cpos < p2 < pos and coll in tg2]
+                    for tg in sorted(targets):
+                        key = "%s|%s<-%s|snapshot" % (rule, tg, coll)
+                        if late:
+                            ctx.violation(rule, key, "what model.%s keeps is decided by ids collected from model.%s before %s purged model.%s: the references of the removed %s are "
+                                          "still in the set, so items only they referred to survive (a second purge removes more)"
+                                          % (tg, coll, late[0].path.split("::")[-1], coll, coll), fn.loc(t.get("ln")))
+
+
+def stage_events(prog, fn, arg_name="model", ctx=None):
     """ordered events of one purge function: ('write', target, info) and the calls to other purge functions"""
     body = fn.body
     sc = Scope(prog, fn)
@@ -100,6 +171,8 @@ def stage_events(prog, fn, arg_name="model"):
                 ln_ = leaf_name(strip(sc.operand(t["args"][0])))
                 events.append((order[b], 10 ** 6, "pred", ln_[len(arg_name) + 1:], strip(pred), fn.loc(t.get("ln"))))
             elif cid in prog.fns and (prog.fns[cid].raw.get("inputs") or [""])[0] == "&mut types::model::Model" and prog.fns[cid].path.startswith("bemodel::purge::"):
+                if ctx is not None:
+                    stale_snapshots(ctx, prog, fn, sc, arg_name)       # positive evidence, if any, is recorded before giving up on the rest
                 raise AnalysisError("purge stage %s takes %s: stages that receive precomputed reference sets (or other extra arguments) are not read by this rule; "
                                     "which set protects which collection, and when it was collected, cannot be decided" % (prog.fns[cid].path.split("::")[-1], prog.fns[cid].raw.get("inputs")))
             else:
@@ -111,13 +184,13 @@ def stage_events(prog, fn, arg_name="model"):
     return events
 
 
-def flatten(prog, fn, depth=0):
+def flatten(prog, fn, depth=0, ctx=None):
     out = []
-    for ev in stage_events(prog, fn):
+    for ev in stage_events(prog, fn, ctx=ctx):
         if ev[2] == "call":
             if depth > 3:
                 raise AnalysisError("purge call nesting too deep")
-            out.extend(flatten(prog, prog.fns[ev[3]], depth + 1))
+            out.extend(flatten(prog, prog.fns[ev[3]], depth + 1, ctx=ctx))
         else:
             out.append((fn,) + ev[2:] + ((ev[0], ev[1]),))
     return out
@@ -237,7 +310,7 @@ def restricting_adaptors(prog, fn, node, depth=0):
 
 def run_on(ctx, root, rule_prefix="c16", arg="model"):
     prog = ctx.prog
-    events = flatten(prog, root)
+    events = flatten(prog, root, ctx=ctx)
     stages = [e for e in events if e[1] in ("write", "retain", "pred")]
     purge_targets = {e[2] for e in stages}
     # spec: target -> set of referrer value names
